@@ -47,7 +47,11 @@ class CallGraph:
                             if cand in prog.bodies:
                                 tgt = cand
                                 break
-                        es.append((tgt or res.get("path") or f.get("path"), t, res.get("kind")))
+                        kind = res.get("kind")
+                        if tgt is None and f.get("trait") and kind in (None, "unresolved") and any(i["trait"] == f["trait"] for i in prog.impls):
+                            # a call on `Self` / a generic receiver of a crate-local trait: dispatches to the crate's impls
+                            kind = "virtual"
+                        es.append((tgt or res.get("path") or f.get("path"), t, kind))
 
                 def visit(d, cl=cl, fr=fr, sr=sr):
                     if d.get("t") == "closure" and "closure" in d:
